@@ -22,6 +22,9 @@ class TaskLaneSpec:
         g['bad'] = BoolSort()                # an observation contradicted the ghost state
         g['waited'] = BoolSort()
         g['startafterwait'] = BoolSort()
+        for pi in range(len(m.procs)):
+            if self.role(m, pi) == 'status':
+                g['need_p%d' % pi] = BoolSort()   # when this Status() call read the last-panic slot, a panic had been handled completely
         return g
 
     def ghost_init(self, m, s):
@@ -78,11 +81,16 @@ class TaskLaneSpec:
                     upd['pan%d' % k] = Or(g['pan%d' % k], tokv == k)
         if ev['kind'] == 'obs' and ev['name'] == 'waited':
             upd['waited'] = BoolVal(True)
+        if role == 'status' and ev['kind'] == 'load' and ev['cell'] == self.panic_cell(m):
+            upd['need_p%d' % pi] = And(Or(*[g['pan%d' % k] for k in range(self.N)]), Not(self.recording(m, s)))
         if ev['kind'] == 'obs' and ev['name'] == 'status':
             pend = m.val(ev['args'][0], s, pi)
             lp = m.val(ev['args'][1], s, pi)
             okp = ULE(pend, self.L * (self.Q + 1))
             oklp = lp == 0
+            if ('need_p%d' % pi) in g:
+                # a panic that was handled completely before the slot was read is reported (LastPanic is not nil)
+                okp = And(okp, Implies(g['need_p%d' % pi], lp != 0))
             for k in range(self.N):
                 oklp = Or(oklp, And(lp == k + 1, g['pan%d' % k]))
             upd['bad'] = Or(g['bad'], Not(okp), Not(oklp))
@@ -96,6 +104,68 @@ class TaskLaneSpec:
     def exited(self, m, s, pi):
         p = m.procs[pi]
         return Or(s['pc'][pi] == p['exit'], s['pc'][pi] == p.get('crash', p['exit']) if p.get('crash') else s['pc'][pi] == p['exit'])
+
+    # ---- last-panic slot: which cell, and where a worker is between a task's panic and the end of its recover handler
+    def panic_cell(self, m):
+        if not hasattr(self, '_pcell'):
+            self._pcell = None
+            for pi, p in enumerate(m.procs):
+                if self.role(m, pi) != 'startWorker': continue
+                for l in self.recover_locs(m, pi)[0]:
+                    for t in p['trans']:
+                        if t['from'] == l and t['ev']['kind'] == 'store' and m.cells.get(t['ev']['cell'], {}).get('kind') == 'plain':
+                            self._pcell = t['ev']['cell']
+            if self._pcell is None:   # no store in any recover handler: the slot is whatever Status() loads
+                for pi, p in enumerate(m.procs):
+                    if self.role(m, pi) == 'status':
+                        for t in p['trans']:
+                            if t['ev']['kind'] == 'load' and m.cells.get(t['ev']['cell'], {}).get('kind') == 'plain': self._pcell = t['ev']['cell']
+        return self._pcell
+
+    def recover_locs(self, m, pi):
+        """(section, stored): locations of a worker after a task panicked and before it is back at a select (loop head);
+        stored = those of them that every path reaches only after a plain store (the slot has been written)"""
+        key = ('rec', pi)
+        if not hasattr(self, '_rec'): self._rec = {}
+        if key in self._rec: return self._rec[key]
+        p = m.procs[pi]
+        heads = {t['from'] for t in p['trans'] if t['ev']['kind'] == 'select'}
+        val = {}   # loc -> set of {False, True} (stored on the way?)
+        work = []
+        for t in p['trans']:
+            if t['ev']['kind'] == 'start_exit' and t['ev']['outcome'] == 1:
+                work.append((t['to'], False))
+        while work:
+            l, st = work.pop()
+            if l in heads or l == p.get('exit'): continue
+            if st in val.setdefault(l, set()): continue
+            val[l].add(st)
+            for t in p['trans']:
+                if t['from'] == l:
+                    work.append((t['to'], st or (t['ev']['kind'] == 'store' and m.cells.get(t['ev']['cell'], {}).get('kind') == 'plain')))
+        section = set(val)
+        stored = {l for l, v in val.items() if v == {True}}
+        self._rec[key] = (section, stored)
+        return self._rec[key]
+
+    def locs_after(self, m, pi, start):
+        """locations of process pi reachable from start without passing its init again"""
+        p = m.procs[pi]; seen = set(); work = [start]
+        while work:
+            l = work.pop()
+            if l in seen: continue
+            seen.add(l)
+            work += [t['to'] for t in p['trans'] if t['from'] == l]
+        return seen
+
+    def recording(self, m, s):
+        """some worker is inside its recover section and has not written the slot yet"""
+        out = []
+        for pi in range(len(m.procs)):
+            if self.role(m, pi) != 'startWorker': continue
+            sec, stored = self.recover_locs(m, pi)
+            out += [s['pc'][pi] == l for l in sec - stored]
+        return Or(*out) if out else BoolVal(False)
 
     def lane_procs(self, m):
         return [i for i in range(len(m.procs)) if self.role(m, i) in ('startQueue', 'startWorker')]
@@ -126,6 +196,19 @@ class TaskLaneSpec:
     # ---- invariant
     def inv(self, m, s):
         g = s['g']; f = [m.wellformed(s), Not(g['bad'])]
+        if any(n.startswith('need_p') for n in g) and self.panic_cell(m) is not None:
+            # once a task has panicked, the slot is written or a worker is still on its way to write it
+            cell = s['cell'][self.panic_cell(m)]
+            f.append(Implies(Or(*[g['pan%d' % k] for k in range(self.N)]), Or(cell != 0, self.recording(m, s))))
+            for n in g:
+                if n.startswith('need_p'):
+                    pi = int(n[6:])
+                    # a Status() call that has read the slot under that condition holds a non-nil value
+                    for t in m.procs[pi]['trans']:
+                        if t['ev']['kind'] == 'load' and t['ev']['cell'] == self.panic_cell(m) and t['ev'].get('res') in s['v'][pi]:
+                            reg = s['v'][pi][t['ev']['res']]
+                            after = self.locs_after(m, pi, t['to'])
+                            f.append(Implies(And(g[n], Or(*[s['pc'][pi] == l for l in after])), reg != 0))
         canc = self.cancelled(m, s)
         for k in range(self.N):
             occ = m.occ(s, k)
@@ -320,6 +403,14 @@ class TaskLaneSpec:
     def safe_c06(self, m, s):
         g = s['g']
         return And(Not(g['bad']), *[And(ULE(g['st%d' % k], 1), Implies(g['rej%d' % k], g['st%d' % k] == 0)) for k in range(self.N)])
+
+    def safe_c14(self, m, s):
+        """C06's safety plus: once a task's panic has been handled completely the last-panic slot is not nil
+        (a Status() call from then on reports one of the panics)"""
+        f = [self.safe_c06(m, s)]
+        if self.panic_cell(m) is not None:
+            f.append(Implies(Or(*[s['g']['pan%d' % k] for k in range(self.N)]), Or(s['cell'][self.panic_cell(m)] != 0, self.recording(m, s))))
+        return And(*f)
 
     def safe_c07(self, m, s):
         g = s['g']
